@@ -198,10 +198,7 @@ pub mod variable_versions;
 
 use crate::netflow_common::{NetflowCommon, NetflowCommonError, NetflowCommonFlowSet};
 
-use static_versions::{
-    v5::{V5, V5Parser},
-    v7::{V7, V7Parser},
-};
+use static_versions::{v5::V5, v7::V7};
 use variable_versions::ipfix::{IPFix, IPFixParser};
 use variable_versions::v9::{V9, V9Parser};
 
@@ -335,12 +332,9 @@ impl NetflowParser {
         // overflows the stack on a datagram packed with minimal packets.
         while !remaining.is_empty() {
             match self.parse_packet_by_version(remaining) {
-                Ok(parsed_netflow) => {
-                    let consumed = remaining
-                        .len()
-                        .saturating_sub(parsed_netflow.remaining.len());
-                    results.push(parsed_netflow.result);
-                    remaining = &remaining[consumed..];
+                Ok((rest, netflow_packet)) => {
+                    results.push(netflow_packet);
+                    remaining = rest;
                 }
                 Err(NetflowParseError::UnallowedVersion(_)) => break,
                 Err(e) => {
@@ -371,11 +365,13 @@ impl NetflowParser {
 
     /// Checks the first u16 of the packet to determine the version.  Parses the packet based on the version.
     /// If the version is unknown it returns an error.  If the packet is incomplete it returns an error.
-    /// If the packet is parsed successfully it returns the parsed Netflow packet and the remaining bytes.
+    /// If the packet is parsed successfully it returns the bytes that follow it and the parsed Netflow packet.
+    /// The rest of the buffer is returned as a slice: copying it once per packet made the work
+    /// quadratic in the number of packets chained in one buffer.
     fn parse_packet_by_version<'a>(
-        &'a mut self,
+        &mut self,
         packet: &'a [u8],
-    ) -> Result<ParsedNetflow, NetflowParseError> {
+    ) -> Result<(&'a [u8], NetflowPacket), NetflowParseError> {
         let (packet, version) = GenericNetflowHeader::parse(packet)
             .map(|(remaining, header)| (remaining, header.version))
             .map_err(|e| NetflowParseError::Incomplete(e.to_string()))?;
@@ -384,11 +380,27 @@ impl NetflowParser {
             return Err(NetflowParseError::UnallowedVersion(version));
         }
 
+        let partial = |e: String| {
+            NetflowParseError::Partial(PartialParse {
+                version,
+                error: e,
+                remaining: packet.to_vec(),
+            })
+        };
+
         match version {
-            5 => V5Parser::parse(packet),
-            7 => V7Parser::parse(packet),
-            9 => self.v9_parser.parse(packet),
-            10 => self.ipfix_parser.parse(packet),
+            5 => V5::parse(packet)
+                .map(|(rest, v5)| (rest, NetflowPacket::V5(v5)))
+                .map_err(|e| partial(e.to_string())),
+            7 => V7::parse(packet)
+                .map(|(rest, v7)| (rest, NetflowPacket::V7(v7)))
+                .map_err(|e| partial(e.to_string())),
+            9 => V9::parse(packet, &mut self.v9_parser)
+                .map(|(rest, v9)| (rest, NetflowPacket::V9(v9)))
+                .map_err(|e| partial(e.to_string())),
+            10 => IPFix::parse(packet, &mut self.ipfix_parser)
+                .map(|(rest, ipfix)| (rest, NetflowPacket::IPFix(ipfix)))
+                .map_err(|e| partial(e.to_string())),
             _ => Err(NetflowParseError::UnknownVersion(packet.to_vec())),
         }
     }
